@@ -63,6 +63,7 @@ func (h *vHist) snapshot() []vEv {
 type vSrvConn struct {
 	net.Conn
 	id       int
+	kindTag  int // used by the C08 stress engine
 	h        *vHist
 	closes   atomic.Int32
 	released atomic.Bool // the consumer is done with it: a Close from now on is the consumer's
@@ -126,15 +127,15 @@ func (l *vInner) Close() error {
 
 type vAddr string
 
-func (a vAddr) Network() string { return "pipe" }
-func (a vAddr) String() string  { return string(a) }
+func (a vAddr) Network() string  { return "pipe" }
+func (a vAddr) String() string   { return string(a) }
 func (l *vInner) Addr() net.Addr { return vAddr("verif") }
 
 // ---- scripted routes ----------------------------------------------------------------------------
 
-const vC13Need = 4     // bytes every matcher wants to see
-const vC13Long = 3000  // bytes a matcher wants to see of an 'L' stream (more than one prefetch chunk)
-const vC13Prefix = 5   // bytes the non-terminal 'N' handler consumes
+const vC13Need = 4    // bytes every matcher wants to see
+const vC13Long = 3000 // bytes a matcher wants to see of an 'L' stream (more than one prefetch chunk)
+const vC13Prefix = 5  // bytes the non-terminal 'N' handler consumes
 
 type vKindMatcher struct{ kind byte }
 
@@ -271,6 +272,10 @@ func vC13Gen(r *vRng) *vScen {
 				ln = 2048 + r.Intn(2500) // more than one chunk arrives before/after the hand-over
 			}
 		}
+		if k.kind == 'N' && ln < vC13Prefix+vC13Need+4 {
+			// after the non-terminal handler consumed its prefix the later routes still need their bytes
+			ln = vC13Prefix + vC13Need + 4
+		}
 		k.stream = vC13Stream(k.kind, k.tag, ln)
 		if k.kind == 'X' || k.kind == 'Z' {
 			k.stream[0] = 'F' // looks like a fall-through stream but never completes the first read
@@ -316,16 +321,16 @@ type vC13Plan struct {
 }
 
 type vC13Result struct {
-	hist      []vEv
-	readBack  map[int][]byte
-	readErr   map[int]string
-	tlsName   map[int]string
-	isTLS     map[int]bool
-	stuck     []string
-	blockedAccept bool
+	hist             []vEv
+	readBack         map[int][]byte
+	readErr          map[int]string
+	tlsName          map[int]string
+	isTLS            map[int]bool
+	stuck            []string
+	blockedAccept    bool
 	afterQuiesceConn bool
-	quiesced  bool
-	cap       int
+	quiesced         bool
+	cap              int
 }
 
 func vWrapperGoroutines() []string {
@@ -464,7 +469,8 @@ func vC13Run(sc *vScen, pl vC13Plan) *vC13Result {
 		_ = c.Close()
 	}
 	closeOnce := sync.Once{}
-	doClose := func() { closeOnce.Do(func() { _ = ln.Close() }) }
+	var closeCalled atomic.Bool
+	doClose := func() { closeOnce.Do(func() { closeCalled.Store(true); _ = ln.Close() }) }
 	if pl.closeAtUs > 0 {
 		go func() { at(pl.closeAtUs); doClose() }()
 	}
@@ -533,8 +539,13 @@ func vC13Run(sc *vScen, pl vC13Plan) *vC13Result {
 		}
 		c, err, ok := acceptOne()
 		if !ok {
+			if !closeCalled.Load() {
+				// the consumer starved: a connection it was waiting for never came (the oracle will
+				// say which); close and go on so that the run terminates
+				doClose()
+				continue
+			}
 			res.blockedAccept = true
-			doClose()
 			break
 		}
 		if err != nil {
